@@ -28,6 +28,12 @@ func init() {
 		}
 		st.traceOn = true
 		st.events = nil
+		st.phaseBase = *st.nextObj
+		st.published = nil
+		// the operations themselves (closures and what they capture) are shared
+		for _, op := range ops {
+			_ = op
+		}
 		return ex.runThread(st, ops, 0, res, at)
 	}
 }
@@ -64,7 +70,7 @@ type section struct {
 }
 
 func (ex *Exec) scheduleCheck(st *State, nthr int, at ssa.Instruction) {
-	evs := st.events
+	evs := filterAccesses(st.events)
 	if len(evs) == 0 {
 		return
 	}
@@ -126,14 +132,21 @@ func (ex *Exec) scheduleCheck(st *State, nthr int, at ssa.Instruction) {
 		return
 	}
 	// races
-	isAcc := func(k string) bool { return strings.HasPrefix(k, "Map") }
-	isWrite := func(k string) bool { return k == "MapWrite" }
+	isAcc := func(k string) bool { return strings.HasPrefix(k, "Map") || k == "Read" || k == "Write" }
+	isWrite := func(k string) bool { return k == "MapWrite" || k == "Write" }
 	type pair struct{ a, b int }
 	var pairs []pair
+	seenPair := map[string]bool{}
 	for i := range evs {
 		for j := i + 1; j < len(evs); j++ {
 			a, b := evs[i], evs[j]
 			if a.Thr == b.Thr || !isAcc(a.Kind) || !isAcc(b.Kind) || a.Obj != b.Obj || !(isWrite(a.Kind) || isWrite(b.Kind)) {
+				continue
+			}
+			if strings.HasPrefix(a.Kind, "Map") != strings.HasPrefix(b.Kind, "Map") {
+				continue
+			}
+			if !strings.HasPrefix(a.Kind, "Map") && !pathsOverlap(a.Path, b.Path) {
 				continue
 			}
 			pairs = append(pairs, pair{i, j})
@@ -181,7 +194,13 @@ func (ex *Exec) scheduleCheck(st *State, nthr int, at ssa.Instruction) {
 			ex.note(st, "schedule: "+sb.String())
 			a, b := evs[p.a], evs[p.b]
 			msg := fmt.Sprintf("data race: %s by thread %d and %s by thread %d on the same map are not ordered by any lock", a.Kind, a.Thr, b.Kind, b.Thr)
-			ex.recordViolation(st, "race", msg, at, nil)
+			if !strings.HasPrefix(a.Kind, "Map") {
+				msg = fmt.Sprintf("data race: %s in %s and %s in %s touch the same shared memory and are not ordered by any lock", a.Kind, a.Src, b.Kind, b.Src)
+			}
+			if !seenPair[msg] {
+				seenPair[msg] = true
+				ex.recordViolation(st, "race", msg, at, nil)
+			}
 			st.notes = st.notes[:len(st.notes)-1]
 			continue
 		}
@@ -192,4 +211,41 @@ func (ex *Exec) scheduleCheck(st *State, nthr int, at ssa.Instruction) {
 		}
 		sol.send("(pop 1)")
 	}
+}
+
+// filterAccesses drops plain memory accesses that cannot take part in a race: those on
+// objects (and overlapping paths) that no other thread writes or that only one thread touches.
+func filterAccesses(evs []Event) []Event {
+	type acc struct {
+		thr   int
+		write bool
+		path  string
+	}
+	byObj := map[int][]acc{}
+	for _, e := range evs {
+		if e.Kind == "Read" || e.Kind == "Write" {
+			byObj[e.Obj] = append(byObj[e.Obj], acc{e.Thr, e.Kind == "Write", e.Path})
+		}
+	}
+	var out []Event
+	seen := map[string]bool{}
+	for _, e := range evs {
+		if e.Kind != "Read" && e.Kind != "Write" {
+			out = append(out, e)
+			continue
+		}
+		keep := false
+		for _, o := range byObj[e.Obj] {
+			if o.thr != e.Thr && (o.write || e.Kind == "Write") && pathsOverlap(o.path, e.Path) {
+				keep = true
+				break
+			}
+		}
+		if !keep {
+			continue
+		}
+		_ = seen
+		out = append(out, e)
+	}
+	return out
 }
